@@ -38,7 +38,7 @@ OPAQUES = ['', 'x', 'x y', 'x ', 'x  ', ' x', 'a/b', '/', 'a?b', 'x%20', 'x%', '
 BASES = [None, 'a:/.//?old', 'foo:/.//p/x?q#f', 'https://user@example.com/dir/file', 'http://example.org/foo/bar', 'http://u:p@h:8080/a/b/c?q#f', 'https://h/', 'file:///C:/dir/file', 'file:///tmp/mock/path',
          'file://host/share/x', 'file:///', 'a://h/p/q?x#y', 'a:/p/q', 'a:opaque', 'a:opaque?q', 'mailto:x@y', 'ws://1.2.3.4/x',
          'http://[::1]:81/x/y', 'a:///p', 'a://h', 'a:', 'http://h/a/../b/./c', 'blob:https://h/uuid', 'a:/.//p', 'file:///C:/', 'wss://h:444/a//b',
-         'ftp://u@h/x;type=a', 'a://u:p@h:9/pa/th']
+         'ftp://u@h/x;type=a', 'a://u:p@h:9/pa/th', 'file:///C:', 'file:///d:?old', 'file://server/E:', 'file:///C|', 'file:///C:/x', 'http://h/C:']
 RELS = ['..//..', 'a//..', '//', '', 'x', '/x', '//h2/p', '?q', '#f', '.', '..', '../..', './x', '../x', '//', '///', '////x', '\\x', '\\\\h3\\p', '/\\h4', 'x/../y', '?', '#',
         'C:', 'C|/x', '/C:/x', '//C:/x', 'c:\\x', 'http:x', 'http:/x', 'http://h5', 'https:x', 'file:x', 'file:/x', 'file://h6/x', 'a:x', 'x:y',
         ':x', 'x?y#z', '%2e%2e/x', '/..//x', '/.//x', '//@h7', '//u@h8:1', '//u:p@/x', '//u@', '//@', '//u@:8/', '//h9:80', '//h:x', ' x ', '\tx', 'x\n', '/a/./b/../c', ';x', 'x;y']
